@@ -15,6 +15,8 @@ Definition ook (r : option (option N)) : N :=
 Definition canon (o : obs N) : list N :=
   match o with
   | ObVacant _ b => [100; if b then 1 else 0]
+  | ObVacantFailed _ => [100; 2]
+  | ObTryInsertErr _ => [103; 2]
   | ObOccupied _ gs r => 101 :: (match r with None => 0 | Some x => kr x end) :: map kr gs
   | ObGet _ r => [102; ook r]
   | ObTryInsert _ b => [103; if b then 1 else 0]
@@ -28,11 +30,11 @@ Definition listing (d : list (id * bytes)) : list N :=
          (map N.of_nat (seq 0 16)).
 
 (** Runs the ops one at a time and records (observation, directory listing) after each. *)
-Fixpoint fs_trace (rw debug : bool) (s : fs) (ops : list (op N)) : list (list N * list N) :=
+Fixpoint fs_trace (rw df debug : bool) (s : fs) (ops : list (op N)) : list (list N * list N) :=
   match ops with
   | [] => []
-  | o :: r => let '(s1, ob) := fs_step N c_enc c_dec rw debug s o in
-              (canon ob, listing (files s1)) :: fs_trace rw debug s1 r
+  | o :: r => let '(s1, ob) := fs_step N c_enc c_dec rw df debug s o in
+              (canon ob, listing (files s1)) :: fs_trace rw df debug s1 r
   end.
 Fixpoint mem_trace (s : mem) (ops : list (op N)) : list (list N * list N) :=
   match ops with
@@ -47,8 +49,8 @@ Definition trace_eqb (a b : list (list N * list N)) : bool :=
 (** case = (is_fs, ops, expected trace) *)
 Definition chk (debug : bool) (x : bool * list (op N) * list (list N * list N)) : bool :=
   let '(is_fs, ops, expect) := x in
-  trace_eqb (if is_fs then fs_trace rewinds debug (fs_init debug) ops else mem_trace [] ops) expect.
+  trace_eqb (if is_fs then fs_trace rewinds dirty_first debug (fs_init debug) ops else mem_trace [] ops) expect.
 (** the same with the pre-repair descriptor semantics, for replaying F6 *)
 Definition chk_orig (debug : bool) (x : bool * list (op N) * list (list N * list N)) : bool :=
   let '(is_fs, ops, expect) := x in
-  trace_eqb (if is_fs then fs_trace false debug (fs_init debug) ops else mem_trace [] ops) expect.
+  trace_eqb (if is_fs then fs_trace false dirty_first debug (fs_init debug) ops else mem_trace [] ops) expect.
